@@ -1366,7 +1366,8 @@ public:
         auto v_view = v.get_storage_view();
 
         size_type len = (v_view.size() * word_type_bits / 3) + 2;
-        data.reserve(len);
+        const std::size_t offset = data.size(); // digits are appended to what the caller has already written
+        data.reserve(offset + len);
 
         if ( v_view.size() == 0 )
         {
@@ -1399,7 +1400,7 @@ public:
             {
                 data.push_back('-');
             }
-            std::reverse(data.begin(),data.end());
+            std::reverse(data.begin() + offset,data.end());
         }
     }
 
@@ -1419,7 +1420,8 @@ public:
         auto v_view = v.get_storage_view();
 
         size_type len = (v_view.size() * basic_bigint<Allocator>::word_type_bits / 3) + 2;
-        data.reserve(len);
+        const std::size_t offset = data.size(); // digits are appended to what the caller has already written
+        data.reserve(offset + len);
 
         if ( v_view.size() == 0 )
         {
@@ -1451,7 +1453,7 @@ public:
             {
                 data.push_back('-');
             }
-            std::reverse(data.begin(),data.end());
+            std::reverse(data.begin() + offset,data.end());
         }
     }
 
